@@ -144,6 +144,22 @@ def handle (toks : List String) : String :=
       "ok " ++ " ; ".intercalate (outs.map showTOut) ++ " | " ++ ",".intercalate live
     | _, _ => "bad-arg"
   | ["default-timeout"] => s!"ok {TIMEOUT}"
+  | ["datefield", kind, v] =>
+    -- DateField / TimeField / DateTimeField._set_value on a str
+    match parseCps (if v == "-" then "" else v) with
+    | some s =>
+      let sp : Astm.Schema.Scalar := ⟨"x", (if kind == "date" then .date else if kind == "time" then .time else .datetime),
+        false, none, .none, [], .plain, none⟩
+      match Astm.Fields.setScalar sp (.text s) with
+      | .ok v => "ok " ++ showV v
+      | .error e => errStr e
+    | none => "bad-arg"
+  | ["pyint", v] =>
+    match parseCps (if v == "-" then "" else v) with
+    | some s => match Astm.Fields.pyInt s with
+      | some n => s!"ok {n}"
+      | none => "err ValueError"
+    | none => "bad-arg"
   | ["wrap", modName, letter, now, rec] =>
     match findRecordSpec modName letter, parseCps now, parseRecord rec with
     | some S, some nowS, some r => match Astm.Fields.wrap S nowS r with
